@@ -650,6 +650,12 @@ func descD(v reflect.Value, d int) string {
 		}
 		return "&" + descD(v.Elem(), d+1)
 	case reflect.Struct:
+		if v.Type() != tS {
+			if rv, ok := v.Interface().(reflect.Value); ok {
+				return "reflect.Value(" + descD(rv, d+1) + ")"
+			}
+			return t + "{…}"
+		}
 		parts := make([]string, v.NumField())
 		for i := range parts {
 			parts[i] = v.Type().Field(i).Name + ":" + descD(v.Field(i), d+1)
